@@ -22,7 +22,7 @@ TEXT = {
          "Readable::read / Writable::write of Modular are verified inside the reader (i64) and writer (u32) units (mint_read, mint_write) against the proved token parser / renderer and the same environment contracts as C08/C09. Display/Debug/Show are not under contract."),
  "C07": ("proof", "Rational::{norm,new,new_int,floor,ceil}, + - * / (by-reference, by-value, assigning forms, instantiated from the real macros), Neg, cmp/partial_cmp are verified for i64, i32 and i128: results canonical (b > 0, gcd = 1) and exactly equal (cross-multiplied) to the rational result; canonical representations are unique (structural == numeric equality); cmp is the numeric order; floor/ceil bracket the value for both signs.",
          "Operand bound |a|,|b| <= 2^30 (i64), 2^14 (i32), 2^62 (i128) in requires. Derived Clone/Copy/PartialEq/Hash assumed field-wise. Ord/PartialOrd impls are verified as inherent impls (R13) because trait impl methods cannot carry the bound."),
- "C08": ("proof", "Reader::{new,refill,peek,skip_whitespace,is_eof,read_line,read,read_vec}, Readable for all 12 integer widths, String, char and tuples are verified against an ENVIRONMENT CONTRACT for io::Read that admits every short read and ErrorKind::Interrupted at every call: every result is a function of `unread` (buffer window ++ rest of the source) alone.",
+ "C08": ("proof", "Reader::{new,refill,peek,skip_whitespace,is_eof,read_line,read,read_vec}, Readable for all 12 integer widths, String, char and tuples of every arity the crate implements (2..8) are verified against an ENVIRONMENT CONTRACT for io::Read that admits every short read and ErrorKind::Interrupted at every call: every result is a function of `unread` (buffer window ++ rest of the source) alone.",
          "Assumed: the Read contract (reads deliver a prefix of the remaining bytes; EOF sticky; Interrupted is transient - finite budget - and consumes nothing; hard I/O errors excluded). read_lines (map_while().collect()) is not under contract. Two genuine defects were repaired (fix: commits 8dcb638, 185acf3)."),
  "C09": ("proof", "Writer::{new,write,write_char,flush,reserve,write_bytes}, Writable for all 12 integer widths (rendering = mathematical decimal expansion, incl. MIN) and tuples of arity 2..8 are verified in BOTH build profiles (flush-per-write and buffered, -C debug-assertions=off): out' = out ++ render for every fill level; the stack buffer BASE_10_LEN is proved sufficient.",
          "Assumed: write_all appends exactly the bytes (std handles partial writes / Interrupted); `dec` = std Display. Vec<T> is proved for every length (loop head rewritten by rule R15); &str, String impls (chunks) and Drop::drop are not under Verus contract (see bounded/unverified in evidence)."),
